@@ -3,6 +3,11 @@
 import json, subprocess
 ALL=[f"C{i:02d}" for i in range(1,20)]
 CLAIMED={
+ "C10": dict(
+   text="In every state of a breadth-first search (namespace alphabet + macro-operations exceeding the inode cache and spanning directory blocks + refused operations + hole-filling reads; inode cache at 100 and scaled to 6) the exact client-visible dump of the running server is compared with a server recovered from the disk image at that point and with a clean restart on the same disk, and caches/allocators are audited against the logical disk.",
+   note="Trusted: ExactDump covers everything a client can observe through the procedures used (GETATTR, READ, READLINK, READDIR, READDIRPLUS, LOOKUP); file contents within the probe windows for the sparse file. Bounds: depth, alphabet; fstxn.ICACHESZ scaled to 6 in the second search.",
+   technique="explicit-state search over operation sequences of the implementation with a differential (running vs restarted vs recovered) oracle",
+   ref="DESIGN.md 4 (C10)"),
  "C05": dict(
    text="Reclaim audit (marked in use == reachable from the root; in-memory allocators == on-disk bitmaps; free counts return to the fresh values after delete-everything) in every state of a breadth-first search over a build/delete alphabet with background frees run to completion under the scheduler; on every crash image of histories that free a 530-block file in several background transactions, after the property's touch/reuse procedure; and at the end of every schedule of the concurrent-free harnesses.",
    note="Trusted: fsck decoders; scheduler-based waiting for shrinkers (no sleeping). Bounds: depth, alphabet, 2200/3000-block disks, image cap per history in quick (exhaustive:false), deviation bound.",
